@@ -1,5 +1,5 @@
 """C16 Loops and conditionals render exactly what their unrolling renders (translation validation, DESIGN.md §5)."""
-import itertools
+import random, itertools
 from fractions import Fraction
 from vlib.engine import *  # noqa
 from vlib.twin import compare_outputs
@@ -34,9 +34,84 @@ def bodies():
     }
 
 
+def gen_body(gseed):
+    """a seeded random body of 1-4 items drawn from the element vocabulary; returns fn(k0) -> (markup, varspecs, prelude)"""
+    def make(k0):
+        rnd = random.Random(31337 + gseed)
+        vs = []
+
+        def nv(init, dom):
+            vs.append((init, *dom))
+            return f"[[{k0 + len(vs) - 1}]]"
+        prelude = ('<specs><rect id="tpl" wh="$w 2"/><circle id="tpc" r="$w"/></specs><defs><rect id="u" wh="2 1"/></defs><rect id="fix" xy="-40 -40" wh="3 4"/>')
+
+        def item(depth):
+            k = rnd.choice(["rect", "rect", "circle-rel", "rect-rel", "ellipse", "text", "shapetext", "acc", "if", "loop", "g", "reuse", "reusec", "polyline", "path", "use", "surround", "line", "point", "box", "relsize"])
+            if k in ("if", "loop", "g") and depth >= 2:
+                k = "rect"
+            if k == "rect":
+                return f'<rect xy="{{{{$i * 2}}}} {nv(5, V)}" wh="{nv(4, VS)} 3"/>'
+            if k == "circle-rel":
+                return f'<circle cxy="^@{rnd.choice(["br", "t", "c", "l"])}" r="{nv(2, VS)}"/>'
+            if k == "rect-rel":
+                return f'<rect xy="^|{rnd.choice("hHvV")} {nv(2, V)}" wh="4 3"/>'
+            if k == "ellipse":
+                return f'<ellipse cxy="$i {nv(3, V)}" rxy="3 {nv(2, VS)}"/>'
+            if k == "text":
+                return f'<text xy="$i {nv(3, V)}">t</text>'
+            if k == "shapetext":
+                return f'<rect xy="{nv(3, V)} $i" wh="9 5" text="n" text-loc="{rnd.choice(["tl", "b", "c"])}"/>'
+            if k == "acc":
+                return '<var acc="{{$acc + $i}}"/><rect xy="$acc 0" wh="1"/>'
+            if k == "if":
+                return f'<if test="{rnd.choice(["gt", "lt", "ge"])}($i, {nv(1, V)})">{item(depth + 1)}</if>'
+            if k == "loop":
+                return f'<loop count="2" loop-var="j{depth}"><rect xy="{{{{$i + $j{depth}}}}} {nv(3, V)}" wh="1"/>{item(depth + 1)}</loop>'
+            if k == "g":
+                return f"<g>{item(depth + 1)}{item(depth + 1)}</g>"
+            if k == "reuse":
+                return f'<reuse href="#tpl" w="{nv(4, VS)}" x="$i" y="{nv(7, V)}"/>'
+            if k == "reusec":
+                return f'<reuse href="#tpc" w="{nv(3, VS)}" x="{nv(7, V)}" y="$i"/>'
+            if k == "polyline":
+                return f'<polyline points="$i 0 {nv(9, V)} 5 3 $i"/>'
+            if k == "path":
+                return f'<path d="M $i 0 h {nv(9, V)} v 3 z"/>'
+            if k == "use":
+                return f'<use href="#u" x="$i" y="{nv(3, V)}"/>'
+            if k == "surround":
+                return f'<rect surround="^" margin="{nv(1, VS)}"/>'
+            if k == "line":
+                return f'<line xy1="$i 0" xy2="{nv(9, V)} {{{{$i + 1}}}}"/>'
+            if k == "point":
+                return f'<point xy="$i {nv(3, V)}"/><rect xy="^|h 1" wh="2"/>'
+            if k == "box":
+                return f'<box xy="$i {nv(3, V)}" wh="4 {nv(2, VS)}"/><circle cxy="^@c" r="1"/>'
+            return f'<rect xy="$i {nv(3, V)}" wh="^ 50%"/>'
+        body = "".join(item(0) for _ in range(rnd.randint(1, 4)))
+        return body, vs, prelude + '<var acc="1"/><rect xy="1 2" wh="3 4"/>'
+    return make
+
+
+NGEN = {"quick": 60, "thorough": 600}
+
+
 def templates(tier, seed):
     tds = []
     B = list(bodies())
+    for gi in range(NGEN[tier]):
+        gname = f"gen{gi + 1000 * seed}"
+        form = gi % 5
+        if form == 0:
+            tds.append(dict(fam="count", body=gname, n=2, lv=True, where="top"))
+        elif form == 1:
+            tds.append(dict(fam="while", body=gname, k=2, where="top"))
+        elif form == 2:
+            tds.append(dict(fam="until", body=gname, k=2, where="top"))
+        elif form == 3:
+            tds.append(dict(fam="for", body=gname, n=2, idx=True))
+        else:
+            tds.append(dict(fam="count", body=gname, n=3, lv=True, where="in-g"))
     for b in B:
         for n in (0, 1, 2, 3):
             for lv in (True, False):
@@ -114,7 +189,7 @@ def build(td, wrong=False):
             obls = [Obl("rendered-iff-test-nonzero", not_(test) if taken else test)]
             return obls + compare_outputs(o0, o1 if taken else o2, wrong=wrong)
         return Template(f"if/{td['body']}/{tform}", [d0, d1, d2], vars_, check_if, family="if", role="C16/if", cap=4)
-    bfn = bodies()[td["body"]]
+    bfn = gen_body(int(td["body"][3:])) if td["body"].startswith("gen") else bodies()[td["body"]]
     kb = alloc([])
     body, bvars, pre = bfn(len(vars_))
     vars_.extend(bvars)
